@@ -526,6 +526,34 @@ def nat_source_failures(h):
                         'ProcessorError whose cause is the injected exception', (got[1], repr(getattr(e, 'cause', None))[:120]))
 
 
+def nat_rejected_items(h):
+    """bounded: an iterable / generator SOURCE holding an item the loader does not accept (None, a bare string, a list among dicts, a
+    dict among lists) at the first, a middle, the last position, inside and beyond the inference sample: the run FAILS (it never
+    returns normally with rows missing), and a dump placed after the source writes no descriptor"""
+    import os
+    import tempfile
+    from dataflows import Flow, dump_to_path
+    from dataflows.base.exceptions import ProcessorError
+    good = lambda i: {'a': i, 'b': 'x%d' % i}
+    for n, k in ((1, 0), (6, 0), (6, 3), (6, 5), (120, 60), (120, 99), (180, 150)):
+        for bad in (None, 'oops', [1, 2], 7):
+            if isinstance(bad, list) and n == 1:
+                continue            # a table of list rows only is a legal source
+            for kind in ('list', 'generator'):
+                def items():
+                    return [bad if i == k else good(i) for i in range(n)]
+                src = (lambda: items()) if kind == 'list' else (lambda: (x for x in items()))
+                for api in ('process', 'results'):
+                    got = h.run(lambda: getattr(Flow(src()), api)())
+                    h.check(got[0] == 'exc' and isinstance(got[2], ProcessorError), 'dataflows/helpers/iterable_loader.py::iterable_loader.handle_iterable',
+                            (n, k, repr(bad), kind, api), 'the run fails', (got[0], str(got[2])[:120] if got[0] == 'exc' else 'returned normally'))
+                with tempfile.TemporaryDirectory() as td:
+                    got = h.run(lambda: Flow(src(), dump_to_path(td)).process())
+                    h.check(got[0] == 'exc' and not os.path.exists(os.path.join(td, 'datapackage.json')),
+                            'dataflows/helpers/iterable_loader.py::iterable_loader.handle_iterable', (n, k, repr(bad), kind, 'dump'),
+                            'the run fails and no descriptor is written', (got[0], os.listdir(td)))
+
+
 def nat_commit_after_failure(h):
     """bounded: a dump / checkpoint placed AFTER a failing step is never committed"""
     import os, tempfile, shutil, zipfile
@@ -806,6 +834,82 @@ def sym_conditional(vc):
         vc.explore(fk, thunk, min_paths=2)
 
 
+def _load_materialised(dp, res):
+    """the FULLY MATERIALISED output of a step as the source of the next one: the descriptor as a plain JSON document (what a
+    dump and reload would give: no object of the previous step's descriptor tree survives, in particular no sub-tree shared by
+    two resources), the rows as fresh dicts"""
+    import copy
+    import json
+    from dataflows import load
+    try:
+        desc = json.loads(json.dumps(dp.descriptor))
+    except (TypeError, ValueError):
+        desc = copy.deepcopy(dp.descriptor)
+    return load((desc, [iter([dict(r) for r in rows]) for rows in res]))
+
+
+def nat_cooperating_steps(h):
+    """bounded: step pairs that only interfere through something the first leaves behind for the second -- a descriptor sub-tree
+    shared by two resources, rows of a removed resource left unread in a sequential source.  Lazy chained evaluation must equal
+    step-by-step evaluation on materialised data for each of them."""
+    import os
+    import tempfile
+    from dataflows import (Flow, duplicate, set_type, rename_fields, delete_fields, add_computed_field, update_schema, set_primary_key,
+                           delete_resource, stream, unstream, checkpoint, update_resource, concatenate)
+    data = [[{'a': i + k, 'b': 'x%d' % i} for i in range(4)] for k in range(3)]
+
+    def sources(n=1):
+        return [[dict(r) for r in rs] for rs in data[:n]]
+
+    def stepwise(srcs, steps):
+        res, dp, _ = Flow(*srcs).results(on_error=None)
+        for s in steps:
+            res, dp, _ = Flow(_load_materialised(dp, res), s).results(on_error=None)
+        return res, [r['schema'] for r in dp.descriptor['resources']], [r['name'] for r in dp.descriptor['resources']]
+
+    def lazy(srcs, steps):
+        res, dp, _ = Flow(*srcs, *steps).results(on_error=None)
+        return res, [r['schema'] for r in dp.descriptor['resources']], [r['name'] for r in dp.descriptor['resources']]
+    # a resource-level step followed by a field-level step that selects only ONE of the resources it produced / left
+    for to_end in (False, True):
+        for which in ('res_1', 'res_1_copy'):
+            followers = {
+                'set_type': lambda: set_type('a', type='number', resources=which),
+                'rename_fields': lambda: rename_fields({'b': 'bb'}, resources=which),
+                'delete_fields': lambda: delete_fields(['b'], resources=which),
+                'add_computed_field': lambda: add_computed_field(target='c', operation='constant', with_='k', resources=which),
+                'update_schema': lambda: update_schema(which, missingValues=['', 'x']),
+                'set_primary_key': lambda: set_primary_key(['a'], resources=which),
+            }
+            for fname, mk in followers.items():
+                for nsrc in (1, 2):
+                    steps = lambda: [duplicate('res_1', duplicate_to_end=to_end), mk()]
+                    a, b = h.run(lambda: lazy(sources(nsrc), steps())), h.run(lambda: stepwise(sources(nsrc), steps()))
+                    ok = a[0] == b[0] and (a[0] != 'ok' or a[1] == b[1])
+                    h.check(ok, 'dataflows/processors/duplicate.py::duplicate.func', ('duplicate then %s on %s' % (fname, which), to_end, nsrc),
+                            b[1][1:] if b[0] == 'ok' else b[:2], a[1][1:] if a[0] == 'ok' else a[:2])
+    # removing / merging resources behind a SEQUENTIAL source (one file read front to back by per-resource readers)
+    with tempfile.TemporaryDirectory() as td:
+        path = os.path.join(td, 's.ndjson')
+        Flow(*sources(3), stream(path)).process()
+        for victim in ('res_1', 'res_2', 'res_3'):
+            a = h.run(lambda: lazy([unstream(path)], [delete_resource(victim)]))
+            b = h.run(lambda: stepwise([unstream(path)], [delete_resource(victim)]))
+            h.check(a[0] == b[0] == 'ok' and a[1] == b[1], 'dataflows/processors/delete_resource.py::delete_resource.func',
+                    ('unstream then delete_resource', victim), b[1][0] if b[0] == 'ok' else b[:2], a[1][0] if a[0] == 'ok' else a[:2])
+        for victim in ('res_1', 'res_2'):
+            cp = os.path.join(td, 'cp_' + victim)
+            runs = [h.run(lambda: lazy(sources(3), [checkpoint('c', checkpoint_path=cp), delete_resource(victim)])) for _ in range(2)]
+            b = h.run(lambda: stepwise(sources(3), [delete_resource(victim)]))
+            h.check(all(r[0] == 'ok' and r[1][0] == b[1][0] for r in runs), 'dataflows/processors/delete_resource.py::delete_resource.func',
+                    ('checkpoint then delete_resource, first and cached run', victim), b[1][0] if b[0] == 'ok' else b[:2],
+                    [r[1][0] if r[0] == 'ok' else r[:2] for r in runs])
+        a = h.run(lambda: lazy([unstream(path)], [concatenate({'a': [], 'b': []}, target=dict(name='all'), resources=['res_1', 'res_2'])]))
+        b = h.run(lambda: stepwise([unstream(path)], [concatenate({'a': [], 'b': []}, target=dict(name='all'), resources=['res_1', 'res_2'])]))
+        h.check(a[0] == b[0] == 'ok' and a[1] == b[1], 'dataflows/processors/concatenate.py::concatenate.func', 'unstream then concatenate of two',
+                b[1][0] if b[0] == 'ok' else b[:2], a[1][0] if a[0] == 'ok' else a[:2])
+
+
 def nat_lazy_vs_stepwise(h):
     """bounded: lazy chained execution == step-by-step evaluation on materialised data; grouping into nested Flows, an
     always-true conditional and results()/process()/datastream() do not matter; every link kind is interpreted or rejected"""
@@ -867,8 +971,7 @@ def nat_lazy_vs_stepwise(h):
             return res, dp
 
         def load_mat(dp, res):
-            from dataflows import load
-            return load((dp.descriptor, [iter([dict(r) for r in rows]) for rows in res]))
+            return _load_materialised(dp, res)
         step = h.run(stepwise)
         cfg = (idx, n, nres)
         if lazy[0] != step[0]:
